@@ -1,7 +1,7 @@
 (* C20/Property.v — property C20 (link URIs select the right driver and parse to the right radio settings).
    Theorems only; each is closed by `exact <lemma of Proofs_*.v>` and followed by Print Assumptions.
    The model (C20/Model.v) describes the code with fixes/F20.patch and fixes/F20b.patch applied. *)
-From CF Require Import Common.Bytes C20.Model C20.Proofs_a C20.Proofs_b C20.Proofs_c C20.Proofs_d C20.Proofs_e.
+From CF Require Import Common.Bytes C20.Model C20.Proofs_a C20.Proofs_b C20.Proofs_c C20.Proofs_d C20.Proofs_e C20.Proofs_f.
 Open Scope Z_scope.
 
 (* Every well-formed radio URI parses to exactly what it names.  Dongle: a number below 10^9 or a serial
@@ -9,7 +9,7 @@ Open Scope Z_scope.
    "/ch", "/ch/rate", "/ch/rate/addr" with ch any non-negative integer (so 0..125), rate 250K|1M|2M, addr 1..10
    hex digits in either case; omitted fields default to channel 2, 2M, E7E7E7E7E7.  Optional ?rate_limit=n. *)
 Theorem C20_parse_format : forall serials d t l devid,
-  dongle_ok serials d devid -> tail_ok t -> lim_ok l ->
+  dongle_ok serials d devid -> tail_ok t -> lim_ok l -> tail_short t -> lim_short l ->
   parse_uri serials (fmt_uri d t l) = POk devid (tail_channel t) (tail_rate t) (tail_address t) l.
 Proof. exact parse_fmt. Qed.
 Print Assumptions C20_parse_format.
@@ -26,14 +26,14 @@ Print Assumptions C20_address_padded_msb_first.
    address) parse back to dongle 0, that channel, rate and address; the address handed to the radio while
    scanning is the same five bytes. *)
 Theorem C20_scan_parse_roundtrip : forall serials address c r,
-  0 <= c -> rate_ok r -> addr_in_range address ->
+  0 <= c -> short c -> rate_ok r -> addr_in_range address ->
   parse_uri serials (scan_uri address c r) = POk 0 c r (be_bytes5 (scanned_address address)) None /\
   scan_radio_address address = option_map (fun a => AOk (be_bytes5 a)) address.
 Proof. exact scan_roundtrip. Qed.
 Print Assumptions C20_scan_parse_roundtrip.
 
 Theorem C20_scan_interface_roundtrip : forall serials address f250 f1 f2,
-  Forall (fun c => 0 <= c) (f250 ++ f1 ++ f2) -> addr_in_range address ->
+  Forall (fun c => 0 <= c /\ short c) (f250 ++ f1 ++ f2) -> addr_in_range address ->
   map (parse_uri serials) (scan_interface address f250 f1 f2) =
   let A := be_bytes5 (scanned_address address) in
   map (fun c => POk 0 c 0 A None) f250 ++ map (fun c => POk 0 c 1 A None) f1 ++ map (fun c => POk 0 c 2 A None) f2.
@@ -106,3 +106,52 @@ Theorem C20_env_address_consistent : forall serials d t l devid,
   address_from_env (fmt_uri d t l) = EnvAddr (be_val (tail_address t)).
 Proof. exact address_from_env_fmt. Qed.
 Print Assumptions C20_env_address_consistent.
+
+(* ---- growth round.  `short n` = n has at most 4300 decimal digits (CPython's int-string limit, modelled: longer
+   fields raise ValueError); e.g. every n < 10^k with k <= 4300: *)
+Theorem C20_short_small : forall n k, 0 <= n < 10 ^ Z.of_nat k -> (1 <= k <= max_str_digits)%nat -> short n.
+Proof. exact short_small. Qed.
+Print Assumptions C20_short_small.
+
+(* query strings: any list of name=value fields (characters other than & = + % #): unknown names are ignored,
+   empty values skipped, the first value of a repeated name wins (percent escapes and '+' are modelled in
+   Model.unquote / plus_to_space and compared with CPython by the tie) *)
+Theorem C20_query_fields : forall key fs, Forall (fun f => tok (fst f) /\ tok (snd f)) fs ->
+  qs_get key (join_fields fs) = first_value key fs.
+Proof. exact qs_get_fields. Qed.
+Print Assumptions C20_query_fields.
+
+(* usb://<digits>: parses to exactly that number; and nothing else is accepted *)
+Theorem C20_usb_wellformed : forall n, 0 <= n -> short n -> usb_parse (scheme_prefix DrvUsb ++ dec n) = UOk n.
+Proof. exact usb_parse_wellformed. Qed.
+Print Assumptions C20_usb_wellformed.
+
+Theorem C20_usb_only_wellformed : forall uri d, usb_parse uri = UOk d ->
+  exists ds, uri = scheme_prefix DrvUsb ++ ds /\ ds <> [] /\ forallb is_digit ds = true /\
+             d = horner 10 (map digit_val ds) 0.
+Proof. exact usb_parse_only_wellformed. Qed.
+Print Assumptions C20_usb_only_wellformed.
+
+(* serial://<name>: the name is taken iff it is non-empty and made of [-a-zA-Z0-9/.]; otherwise "Invalid serial URI" *)
+Theorem C20_serial_parse : forall name,
+  serial_parse (scheme_prefix DrvSerial ++ name) =
+  if negb (is_nil name) && forallb serial_char name then SName name else SInvalid.
+Proof. exact serial_parse_spec. Qed.
+Print Assumptions C20_serial_parse.
+
+Theorem C20_serial_only_wellformed : forall uri name, serial_parse uri = SName name ->
+  uri = scheme_prefix DrvSerial ++ name /\ name <> [] /\ forallb serial_char name = true.
+Proof. exact serial_parse_only_wellformed. Qed.
+Print Assumptions C20_serial_only_wellformed.
+
+(* tcp://host:port and udp://host:port: exactly the host (lower-cased by urlparse) and the port; port > 65535 is a
+   ValueError (=> connection_failed, C20_open_link_never_raises) *)
+Theorem C20_net_wellformed : forall d h n, net_driver d -> h <> [] -> forallb hostc h = true -> 0 <= n -> short n ->
+  net_parse d (scheme_prefix d ++ h ++ c_colon :: dec n) =
+  if n <=? 65535 then NOk (Some (map lower_c h)) (Some n) else NRaise.
+Proof. exact net_parse_wellformed. Qed.
+Print Assumptions C20_net_wellformed.
+
+Theorem C20_net_wrong_scheme : forall d uri, startswith (scheme_prefix d) uri = false -> net_parse d uri = NWrong.
+Proof. exact net_parse_wrong_scheme. Qed.
+Print Assumptions C20_net_wrong_scheme.
